@@ -35,6 +35,10 @@ func jsonKeysOf(st *types.Struct) map[string]string {
 }
 
 func runC03(r *Run, p *Prog) {
+	// P10: without call ids a reply written for a oneway call pairs every later call with its predecessor's reply
+	siblingRules(r, p, "C01", []string{"R2"}, "P10")
+	// P11: a cancelled receive must not leave a helper behind that consumes the next reply; on the bridge transport this needs the deadline on the right pipe end
+	siblingRules(r, p, "C17", []string{"D1", "D2", "D3", "D6"}, "P11")
 	ro := DiscoverRoles(p)
 	T := ro.T
 	cm := buildClientModel(p, ro)
